@@ -406,6 +406,10 @@ class SpecRT:
             return outs
         pre = st.fork()
         self.havoc(ctx.modifies, st)
+        # the callee may allocate: the allocation frontier moves forward by an unknown amount
+        na = fresh_int('alloc')
+        st.assume(na >= pre.alloc)
+        st.alloc = na
         result = self.make_result(con, st, base='r_' + info.name.strip('_'))
         ctx2 = self.run_spec(con, env, pre, st, result, 'post')
         for f, lab, props in ctx2.ensures:
